@@ -115,7 +115,7 @@ class C11(core.Check):
         '.8byte/little', 'value:negative', 'value:oversized', 'value:label', 'value:char', 'escape:\\n', 'escape:\\t',
         'escape:\\r', 'escape:\\\\', 'escape:\\xHH', 'escape:quote', 'other-quote-inside', 'quote:double', 'quote:single',
         'string:.byte', 'string:.cstr', 'string:.asciiz', 'string:embedded', 'string:empty', 'terminator:0',
-        'terminator:nonzero', 'fill:count-0', 'fill:count-1', 'fill:count-many', 'fill:value-negative', 'fill:value->255', 'fill:value-forward-label', 'fill:value-backward-label',
+        'terminator:nonzero', 'fill:count-0', 'fill:count-1', 'fill:count-many', 'fill:value-negative', 'fill:value->255', 'fill:value-forward-label', 'fill:value-backward-label', 'ends-on-the-last-address-of-its-zone', 'count:negative',
         'zero:count-0', 'zero:count-many', 'zerountil:below', 'zerountil:just-below', 'zerountil:at', 'zerountil:above',
         'zero-byte-under-nonzero-image-fill', 'value:char-first-in-list', 'value:char-comma', 'value:char-first-then-operator', 'same-text-two-local-scopes']}
 
@@ -286,6 +286,40 @@ class C11(core.Check):
             if i < n_pre:
                 force = [[0.1], [0.5], [0.7], [0.85], [0.95], None][i % 6]
             yield self.build(rng, force, fillopt=[-1, 255, -1, 0xA5][(i // 6) % 4] if i < n_pre else None)
+        # a fill / zero run / data line whose last byte is the last byte of its zone (the whole address space, a predefined
+        # zone, a zone created in source): it fits
+        for ab, zone_, top_ in ((8, None, 0xFF), (12, None, 0xFFF), (16, ('ZE', 0x40, 0x4F), 0x4F), (16, ('create', 0x80, 0x83), 0x83)):
+            for d_txt, n_, bts in (('.fill {n}, $A5', 16, b'\xa5' * 16), ('.zero {n}', 3, b'\0' * 3), ('.fill {n}, 7', 1, b'\x07'),
+                                   ('.byte 1, 2, 3, 4', 4, bytes([1, 2, 3, 4])), ('.zerountil {top}', 2, b'\0\0'), ('.cstr "ab"', 3, b'ab\0')):
+                if zone_ and n_ > zone_[2] - zone_[1] + 1:
+                    continue
+                obj = isamod.base_isa(address_size=ab, endian='big')
+                head = []
+                if zone_ and zone_[0] == 'ZE':
+                    obj['predefined'] = {'memory_zones': [{'name': 'ZE', 'start': zone_[1], 'end': zone_[2]}]}
+                    head = ['.memzone ZE']
+                elif zone_:
+                    head = [f'#create_memzone ZC ${zone_[1]:x} ${zone_[2]:x}', '.memzone ZC']
+                a0 = top_ - n_ + 1
+                base_ = zone_[1] if zone_ else 0
+                org_ = f'.org {a0 - base_}' + (f' "{"ZE" if zone_[0] == "ZE" else "ZC"}"' if zone_ else '')
+                text_ = d_txt.format(n=n_, top=top_)
+                fn, text = isamod.render_isa(obj, 'json')
+                src = '\n'.join(head + [org_, text_]) + '\n'
+                yield {'runs': [{'files': {fn: text, 'p.asm': src}, 'argv': ['compile', '-c', fn, 'p.asm', '-o', 'out.bin', '-s', str(max(0, a0 - 2))],
+                                 'probes': ['steps', 'sizes'], 'step_limit': 2_000_000}],
+                       'meta': {'start': 0, 'fill': 0, 'endian': 'big', 'kind': 'ACCEPT',
+                                'lines': [{'k': 'fill', 'text': text_, 'addr': a0 - max(0, a0 - 2), 'size': n_, 'bytes': bts.hex(),
+                                           'tags': ['ends-on-the-last-address-of-its-zone', 'count:negative', 'ends-on-the-last-address-of:' + (zone_[0] if zone_ else f'{ab}-bit-space')],
+                                           'sigk': text_.split()[0]}]},
+                       'tags': []}
+        for body in (['.org 8', '.byte 1', '.org 40', '.fill 0-5, 0', 'c11_after:', '.byte c11_after'], ['.byte 1, 2, 3', '.fill -2, 0', '.byte 9'],
+                     ['.org 20', '.zero 0-1', '.byte 9'], ['C11_K = 3 - 7', '.org 30', '.zero C11_K', '.byte 1'], ['.org 30', '.fill 2-3, $55']):
+            obj = isamod.base_isa(address_size=16, endian='big')
+            fn, text = isamod.render_isa(obj, 'json')
+            yield {'runs': [{'files': {fn: text, 'p.asm': '\n'.join(body) + '\n'}, 'argv': ['compile', '-c', fn, 'p.asm', '-o', 'out.bin'],
+                             'probes': ['steps'], 'step_limit': 2_000_000}],
+                   'meta': {'start': 0, 'fill': 0, 'endian': 'big', 'kind': 'REJECT-NEGATIVE-COUNT', 'lines': []}, 'tags': []}
         # a list whose first item is a quoted character: dedicated one-line programs (the data-line grammar reads the
         # text between the first and the last quote as a string)
         for i in range(40 if tier == 'quick' else 400):
@@ -299,9 +333,15 @@ class C11(core.Check):
         m = case['meta']
         if o.get('timed_out'):
             return [core.violated('termination:' + str(o['timed_out']), {'probe': (o.get('probes') or {}).get('steps')})]
-        if m['kind'] != 'ACCEPT':
+        if m['kind'] not in ('ACCEPT', 'REJECT-NEGATIVE-COUNT'):
             return [core.dont_care(m['kind'])]
         img = (o.get('files') or {}).get('out.bin')
+        if m['kind'] == 'REJECT-NEGATIVE-COUNT':
+            # -n copies of a byte cannot be emitted, and a line of negative extent would move the lines behind it backwards
+            if o.get('exit') == 0:
+                return [core.violated('negative-count-accepted', {'source': case['runs'][0]['files']['p.asm'][:400], 'image': (img or '')[:80]},
+                                      buckets=['count:negative'])]
+            return [core.held(buckets=['count:negative'])]
         cf = [l for l in m['lines'] if 'char-first-in-list' in (l.get('cls') or [])]
         if cf:
             # defect emulation for the listed finding: the text between the first and the last single quote is one string
